@@ -366,6 +366,7 @@ MONITORS = {
     "cli:c04": [mon_faults, mon_ids_fresh, mon_reply_matches, mon_return_once, mon_quiescent_returned],
     "cli:c05": [mon_faults, mon_return_once, mon_ctx_outcome, mon_hooks, mon_reply_matches, mon_quiescent_returned],
     "cli:c10": [mon_faults, mon_return_once],
+    "cli:c09": [mon_faults, mon_return_once],
 }
 
 
@@ -378,6 +379,8 @@ def nontrivial(sc, fam):
         return ("env\tctxend" in txt or "o\tclose" in txt) and "o\tsendreq\t1" in txt
     if fam == "cli:c10":
         return "o\tsendreq\t" in txt
+    if fam == "cli:c09":
+        return "env\tcbgate\t" in txt
     return True
 
 
